@@ -161,6 +161,31 @@ def run(pid, tier, seed, scratch, t0):
         for c in r.get('undecided', []):
             undecided.append('[%s] %s' % (r['unit'], c))
 
+    # A Verus value clause fails when an arm computes its value by other means than the primitive the specification names (the IEEE
+    # primitives are uninterpreted there).  If, in the same run, a *complete* Kani harness (full operand domain, not bounded) of that
+    # very arm passes - bit-exact against the IEEE operation - the arm is right and the Verus failure is a limit of the vocabulary:
+    # undecided, not a violation.  (The harness proves the arm for leaf children; the arm uses its children only through eval.)
+    STACK_OF = {'f64-ast': 'eval_f64', 'number-ast': 'eval_number', 'i64-ast': 'eval_i64', 'complex-ast': 'eval_complex'}
+    kani_ok = {}
+    for r in results:
+        if not r['unit'].startswith('kani:'):
+            continue
+        for o in r['obligations']:
+            lab = o.get('function_label') or ''
+            if '::ast::eval/' in lab and not o.get('bounded') and o.get('exact'):      # `exact=1`: the harness pins the value of the arm for all operands
+                key = lab.split('(')[0]
+                good = not o['failures'] and not o.get('undecided')
+                kani_ok[key] = kani_ok.get(key, True) and good
+    kept = []
+    for o, f, r in failed:
+        st = STACK_OF.get(r.get('base_unit'))
+        if st and o['fn'] == 'eval' and o['arm'] and f['kind'] == 'post' and kani_ok.get('%s::ast::eval/%s' % (st, o['arm'].split('/')[0])):
+            undecided.append('obligation %s: Verus cannot prove the arm equal to the primitive the specification names, while the complete Kani harness of the same arm '
+                             'proves it bit-exact over all operands: a reformulation the specification vocabulary cannot follow (not a violation)' % o['name'])
+            continue
+        kept.append((o, f, r))
+    failed = kept
+
     kf = known_findings()
     violations = []
     known_hits = []
